@@ -1,0 +1,29 @@
+//go:build verif
+
+// Package verifrt holds the intrinsics used by the verification lemmas and
+// contracts of the b6vc verifier (/verif). It is compiled only with the build
+// tag "verif"; production builds never see it.
+//
+// The verifier interprets these symbolically: Assume restricts the universally
+// quantified parameters of a lemma, Assert is a proof obligation. Executed
+// concretely (when a counterexample is replayed against the real code) they
+// panic with a recognisable message.
+package verifrt
+
+// Assume restricts the inputs of a lemma. A replayed model that violates an
+// assumption is a spurious counterexample (an engine defect, not a violation).
+func Assume(cond bool) {
+	if !cond {
+		panic("VERIF-ASSUME-FAILED")
+	}
+}
+
+// Assert states a proof obligation.
+func Assert(cond bool, name string) {
+	if !cond {
+		panic("VERIF-ASSERT-FAILED " + name)
+	}
+}
+
+// Cover marks a point that must be reachable with cond true (vacuity guard).
+func Cover(cond bool) {}
